@@ -96,13 +96,40 @@ class Job:
         view = "View" if (self.kind != "dump" and self.module != "AssignMC.tla") else None
         cfg = tlc.write_cfg(wd / "mc.cfg", constants=self.consts, invariants=self.invs, view=view)
         return tlc.run(SPEC / self.module, cfg, label=self.label, workers=self.workers, timeout=self.timeout,
-                       dump_dot=(wd / "graph") if self.dot else None, heap="3g")
+                       dump_dot=(wd / "graph") if self.dot else None, heap="3g",
+                       env=JVM_SMALL if self.kind != "clean" else JVM_BIG)
 
     def dot_path(self):
         return tlc.WORK / self.label / "graph.dot"
 
 
-def jobs_for(tier):
+# many short TLC processes run side by side: keep each JVM's helper threads (GC, JIT) few
+JVM_SMALL = {"JAVA_TOOL_OPTIONS": "-XX:TieredStopAtLevel=1 -XX:ParallelGCThreads=2 -XX:CICompilerCount=1"}
+JVM_BIG = {"JAVA_TOOL_OPTIONS": "-XX:ParallelGCThreads=4"}
+
+
+def jobs_for(tier, seed=0):
+    J = all_jobs(tier)
+    if tier != "quick":
+        return J
+    # quick tier: fewer JVMs.  Both real deviations and four of the hypothetical ones (rotating with the seed)
+    # are exercised; the thorough tier runs all 17 sensitivity runs and all configurations.
+    keep_clean = {"mq clean lat1", "mq clean lat0 cap nodlq", "topic clean lat1", "stream clean rr time",
+                  "stream clean sticky size", "assign clean"}
+    keep_dump = {"mq tour lat0", "mq tour lat1", "topic tour lat0", "stream tour"}
+    devs = [j for j in J if j.kind == "dev"]
+    real = [j for j in devs if "stale_now_after_yield" in j.name]
+    rest = [j for j in devs if j not in real]
+    pick = random.Random(seed).sample(rest, 4)
+    out = []
+    for j in J:
+        if (j.kind == "clean" and j.name in keep_clean) or (j.kind == "dump" and j.name in keep_dump) \
+                or j in real or j in pick:
+            out.append(j)
+    return out
+
+
+def all_jobs(tier):
     q = tier == "quick"
     big = max(2, tlc.DEFAULT_WORKERS // 4)
     J = []
@@ -129,9 +156,10 @@ def jobs_for(tier):
               TP_INVS, "clean", workers=big, timeout=3000),
           Job("topic clean lat0", "TopicMC.tla", tp_consts(nc=3 if not q else 2, maxops=5 if q else 7, maxt=1, lat=0),
               TP_INVS, "clean", workers=big, timeout=3000)]
-    for strat, ret in (("range", "size"), ("rr", "time"), ("sticky", "none")):
+    for strat, ret in (("rr", "time"), ("sticky", "size"), ("range", "none")):
         J.append(Job(f"stream clean {strat} {ret}", "StreamMC.tla",
-                     st_consts(strat=strat, ret=ret, nk=1 if q else 2, maxops=4 if q else 5, maxapp=2, maxt=2),
+                     st_consts(strat=strat, ret=ret, nk=2 if (not q and strat == "rr") else 1,
+                               maxops=4 if q else 5, maxapp=2, maxt=2),
                      ST_INVS, "clean", workers=big, timeout=3000))
     J.append(Job("assign clean", "AssignMC.tla", as_consts(maxsteps=4 if q else 6), AS_INVS, "clean", workers=2,
                  dot=True, fam="assign"))
@@ -170,8 +198,8 @@ def _validate_chunk(fam, part, dev, label):
     cfg = tlc.write_cfg(wd / "trace.cfg", spec="Spec", constants={"Dev": devset(dev)})
     f = wd / "traces.json"
     f.write_text(json.dumps(part, separators=(",", ":")))
-    res = tlc.run(SPEC / TRACE_MODULE[fam], cfg, label=label, workers=1, timeout=3000, env={"TRACE_FILE": str(f)},
-                  heap="3g")
+    res = tlc.run(SPEC / TRACE_MODULE[fam], cfg, label=label, workers=1, timeout=3000, heap="3g",
+                  env={"TRACE_FILE": str(f), "JAVA_TOOL_OPTIONS": "-XX:ParallelGCThreads=2"})
     vv, cc, verdicts = {}, {}, {}
     for v in res.printed:
         if isinstance(v, tuple) and len(v) == 4 and v[0] == "V":
@@ -361,10 +389,14 @@ def run(tier, seed, replay=None):
         return replay_case(chk, replay)
     rng = random.Random(seed)
     quick = tier == "quick"
-    jobs = jobs_for(tier)
+    jobs = jobs_for(tier, seed)
     if os.environ.get("VERIF_C19_SKIP_MC"):     # development aid (mutation runs): only the tour graphs
         jobs = [j for j in jobs if j.dot]
-    pool = ThreadPoolExecutor(max_workers=5 if quick else 6)
+    if quick:
+        ran = {j.name for j in jobs}
+        chk.extra["sensitivity_runs_left_to_thorough_tier"] = sorted(
+            j.name for j in all_jobs(tier) if j.kind == "dev" and j.name not in ran)
+    pool = ThreadPoolExecutor(max_workers=6)
     order = sorted(jobs, key=lambda j: {"dump": 0, "clean": 1, "dev": 2}[j.kind])
     futs = {j.name: pool.submit(j.run) for j in order}
 
@@ -409,14 +441,16 @@ def run(tier, seed, replay=None):
     pool.shutdown(wait=True)
 
     # judge every recorded execution with the trace specs (three TLC batches in parallel)
-    chunks = 2 if quick else 4
+    chunks = 1 if quick else 4
     with ThreadPoolExecutor(max_workers=3) as p2:
         outs = list(p2.map(lambda F: judge_tlc(F, chunks), fams.values()))
     for F, out in zip(fams.values(), outs):
         judge(chk, F, out)
     chk.impl_traces += sum(len(F.traces) for F in fams.values())
     chk.impl_steps = sum(F.steps for F in fams.values())
-    chk.exhaustive = complete
+    chk.exhaustive = complete      # every edge of every dumped state graph was replayed on the real code
+    chk.extra["model_bounds"] = {j.name: {k: v for k, v in j.consts.items() if k != "Dev"}
+                                 for j in jobs if j.kind in ("clean", "dump")}
     for F in fams.values():
         if F.traces:
             t = F.traces[min(len(F.traces) - 1, 3)]
